@@ -229,52 +229,35 @@ Print Assumptions C14_bpch_first_block_tracer_cut_refuted.
    ====================================================================================================== *)
 From PNC Require Import Model.Wind Proofs.WindProofs.
 
-(* EVERY well-formed wind file on a grid of two or more cells and EVERY cut from the dummy marker of the first step on
-   (body + 4 bytes): the reader raises, or it presents exactly the first k = (len - 4) / body steps of the file -- and it does
-   so exactly when the cut is a whole number of words and the data of step k are complete (k * body + 12 * (k - 1) <= len).
-   The trailing bytes (a missing or partial dummy record, a partial next step) are never looked at, so such prefixes open
-   with the complete steps only; nothing fabricated, nothing shifted. *)
-Theorem C14_wind_every_prefix_from_first_step : forall c s0 rest len, w_wf c = true -> w_steps c = s0 :: rest ->
-  2 <= w_nx c * w_ny c -> w_body_bytes c + 4 <= len <= 4 * Z.of_nat (length (w_enc c)) ->
+(* EVERY well-formed wind file on a grid of two or more cells and EVERY cut (reader as repaired by db74c5b / d3c85b3): opening
+   and reading the first len bytes either raises, or it presents exactly the first k = len / step_bytes COMPLETE steps of the
+   file -- and it does so exactly when len is a whole number of words holding at least one whole step. Trailing bytes after
+   the last whole step (a partial next step) are never looked at; nothing fabricated, nothing shifted, nothing partial.
+   (Before db74c5b every cut inside the first step made the layer-counting loop spin for ever: former finding
+   C14-wind-prefix-hangs, now a corpus case.) *)
+Theorem C14_wind_every_prefix : forall c len, w_wf c = true -> w_steps c <> [] -> 2 <= w_nx c * w_ny c ->
+  0 <= len <= 4 * Z.of_nat (length (w_enc c)) ->
   w_mm_read (w_ny c) (w_nx c) (firstn (Z.to_nat ((len + 3) / 4)) (w_enc c)) len =
-  if negb (len mod 4 =? 0) then WErr else
-  let k := (len - 4) / w_body_bytes c in
-  if k * w_body_bytes c + 12 * (k - 1) <=? len then WOk (w_view_of (w_truncate_steps (Z.to_nat k) c)) else WErr.
-Proof. exact w_mm_read_len. Qed.
-Print Assumptions C14_wind_every_prefix_from_first_step.
+  if (len mod 4 =? 0) && (w_step_bytes c <=? len)
+  then WOk (w_view_of (w_truncate_steps (Z.to_nat (len / w_step_bytes c)) c)) else WErr.
+Proof. exact w_mm_read_every_cut. Qed.
+Print Assumptions C14_wind_every_prefix.
 
-(* "raises or presents complete steps" is REFUTED for the cuts inside the first step: the layer-counting loop
-   `while rf.record_size == record_size: lays += 1; rf.next()` never terminates because rf.next() neither advances nor
-   raises at the end of the file. For EVERY well-formed file, every cut from the 12th byte to the end of the first time
-   record makes the reader model diverge ... *)
-Theorem C14_wind_first_record_cut_hangs_refuted : forall c s0 rest len, w_wf c = true -> w_steps c = s0 :: rest ->
-  12 <= len <= w_hdr_bytes c ->
-  w_mm_read (w_ny c) (w_nx c) (firstn (Z.to_nat ((len + 3) / 4)) (w_enc c)) len = WHang.
-Proof. exact w_first_record_cut_hangs. Qed.
-Print Assumptions C14_wind_first_record_cut_hangs_refuted.
-
-(* ... and so do the cuts inside the U/V records of the first step: on a concrete 2x1x2 file EVERY cut below body + 4 bytes is
-   classified by Model/Wind.v w_hang_cut exactly (hang: from 4 bytes after a record start to the next record start; the
-   3-byte windows after a record start and the cuts below 12 bytes raise). Replays on the library: finding
-   C14-wind-prefix-hangs (region 15). *)
-Theorem C14_wind_first_step_cuts_refuted :
-  let c := {| w_nx := 2; w_ny := 1; w_nz := 2; w_stag := Some 1; w_dummy := 0;
-              w_steps := [WStep 1120403456 4001 [([1; 2], [3; 4]); ([5; 6], [7; 8])];
-                          WStep 1128792064 4001 [([11; 12], [13; 14]); ([15; 16], [17; 18])]] |} in
-  w_wf c = true /\ w_body_bytes c = 84 /\
-  forallb (fun len => match w_mm_read 1 2 (firstn (Z.to_nat ((len + 3) / 4)) (w_enc c)) len with
-                      | WHang => w_hang_cut c len | WErr => negb (w_hang_cut c len) | WOk _ => false end)
-          (map Z.of_nat (seq 0 88)) = true /\
-  existsb (w_hang_cut c) (map Z.of_nat (seq 0 88)) = true.
-Proof. vm_compute. repeat split; reflexivity. Qed.
-Print Assumptions C14_wind_first_step_cuts_refuted.
+(* the reader model can only fail to return on a file whose SECOND record has a size word of -8 or less (a corrupt marker that
+   moves the record walk backwards) -- never on a prefix of a well-formed file, whatever the grid (1x1 included) *)
+Theorem C14_wind_never_hangs : forall rows cols ws len, w_mm_read rows cols ws len = WHang ->
+  snd (match rf_next ws len 0 (getw ws 0) with Some (Some x) => x | _ => (0, getw ws 0) end) + 8 <= 0.
+Proof. exact w_mm_read_hang_corrupt. Qed.
+Print Assumptions C14_wind_never_hangs.
 
 Example C14_wind_cuts :
   let c := {| w_nx := 2; w_ny := 1; w_nz := 2; w_stag := Some 1; w_dummy := 0;
               w_steps := [WStep 1120403456 4001 [([1; 2], [3; 4]); ([5; 6], [7; 8])];
                           WStep 1128792064 4001 [([11; 12], [13; 14]); ([15; 16], [17; 18])]] |} in
-  (exists v, w_mm_read 1 2 (firstn 22 (w_enc c)) 88 = WOk v /\ wv_ntimes v = 1)        (* step 1 without its dummy record *)
-  /\ (exists v, w_mm_read 1 2 (firstn 30 (w_enc c)) 120 = WOk v /\ wv_ntimes v = 1)    (* inside step 2's data *)
-  /\ w_mm_read 1 2 (firstn 23 (w_enc c)) 90 = WErr                                      (* not a whole number of words *)
-  /\ (exists v, w_mm_read 1 2 (firstn 45 (w_enc c)) 180 = WOk v /\ wv_ntimes v = 2).
+  w_wf c = true /\ w_step_bytes c = 96
+  /\ w_mm_read 1 2 (firstn 5 (w_enc c)) 20 = WErr                                       (* the first time record: raised (hung before db74c5b) *)
+  /\ w_mm_read 1 2 (firstn 22 (w_enc c)) 88 = WErr                                      (* step 1 without its dummy record *)
+  /\ (exists v, w_mm_read 1 2 (firstn 30 (w_enc c)) 120 = WOk v /\ wv_ntimes v = 1)     (* one whole step and part of the next *)
+  /\ w_mm_read 1 2 (firstn 25 (w_enc c)) 98 = WErr                                      (* not a whole number of words *)
+  /\ (exists v, w_mm_read 1 2 (firstn 48 (w_enc c)) 192 = WOk v /\ wv_ntimes v = 2).
 Proof. vm_compute. repeat split; try reflexivity; eexists; split; reflexivity. Qed.
